@@ -17,6 +17,7 @@ import (
 	"fmt"
 	"math/bits"
 	"os"
+	"strconv"
 	"strings"
 
 	"github.com/paulsonkoly/chess-3/attacks"
@@ -226,13 +227,57 @@ func main() {
 		}
 	}
 
-	// --- sliders: every subset of the relevant-occupancy mask ---------------------------------------
 	type slider struct {
 		tag  string
 		dirs [4][2]int
 		impl func(chess.Square, chess.BitBoard) chess.BitBoard
 	}
 	sliders := []slider{{"b", bishopDirs, attacks.BishopMoves}, {"r", rookDirs, attacks.RookMoves}}
+
+	// --- replay mode: the table sections above always run in full (they are tiny); slider and pawn
+	// ops (`b|r <sq> <occ>`, `pc|pp <colour> <bb>`) of the replay file are re-run one by one ---------
+	if ctx.Replay != "" {
+		buf, err := os.ReadFile(ctx.Replay)
+		if err != nil {
+			fmt.Fprintf(os.Stderr, "attacks harness: %v\n", err)
+			os.Exit(2)
+		}
+		for _, line := range strings.Split(string(buf), "\n") {
+			f := strings.Fields(strings.Trim(line, "\", []"))
+			if len(f) != 3 {
+				continue
+			}
+			a, err1 := strconv.Atoi(f[1])
+			x, err2 := strconv.ParseUint(f[2], 16, 64)
+			if err1 != nil || err2 != nil {
+				continue
+			}
+			switch f[0] {
+			case "b", "r":
+				if a < 0 || a > 63 {
+					continue
+				}
+				for _, sl := range sliders {
+					if sl.tag == f[0] {
+						r.run("C12", sl.tag, a, []uint64{x},
+							func(x uint64) uint64 { return uint64(sl.impl(chess.Square(a), chess.BitBoard(x))) }, id,
+							func(_, _ uint64) bool { return true })
+					}
+				}
+			case "pc":
+				r.run("C12", "pc", a&1, []uint64{x},
+					func(x uint64) uint64 { return uint64(attacks.PawnCaptureMoves(chess.BitBoard(x), chess.Color(a&1))) }, id, nonEmpty)
+			case "pp":
+				r.run("C12", "pp", a&1, []uint64{x},
+					func(x uint64) uint64 { return uint64(attacks.PawnSinglePushMoves(chess.BitBoard(x), chess.Color(a&1))) }, id, nonEmpty)
+			}
+		}
+		res.Notes = append(res.Notes, "replay mode: king/knight/InBetween tables in full + the slider/pawn ops of "+ctx.Replay)
+		res.Write(ctx)
+		return
+	}
+
+	// --- sliders: every subset of the relevant-occupancy mask ---------------------------------------
 	empty := map[string][64]uint64{}
 	for _, s := range sliders {
 		var e [64]uint64
